@@ -762,6 +762,12 @@ for root in (True, False):
         ("quick", "thorough") if root else ("thorough",),
         extra_stub="syscommand_runner (the ORIGINAL) -> record_nested", witness=[["runner", "self_despawn_residue"], ["once", "twice"]]))
 OBLIGATIONS.append(_runner(
+    "runner.replay_order_three", "runner_step_replay_order_three", ["C12", "C09", "C02"],
+    "3 commands postponed for the finishing system itself (concrete ownership), distinct setup and cleanup; root call",
+    "the three are replayed in the order they were postponed, each with its own setup and cleanup; quiescent afterwards (the lightest "
+    "shape that can show a reordering)",
+    extra_stub="syscommand_runner (the ORIGINAL) -> record_nested", witness=_W_REPLAY))
+OBLIGATIONS.append(_runner(
     "runner.replay_4_root", "runner_step_replay_4_root", ["C02", "C09", "C12", "C05", "C11", "C03"],
     "4 postponed commands, each symbolically for A or B, distinct setup and cleanup per command; tree position 0", _REPLAY, ("thorough",),
     extra_stub="syscommand_runner (the ORIGINAL) -> record_nested", witness=_W_REPLAY))
@@ -874,7 +880,7 @@ _QUICK_ONLY_FOR = {
     "desp.witness": ["C12"], "ent.witness": ["C12"], "bundle.reactor_types": ["C06", "C16"],
     "rc.broadcast_0_2": ["C01", "C05"], "rc.broadcast_2_1": ["C01", "C05", "C03"],
     # runner steps / command application / setup-cleanup pairs (measured 25-150 s each)
-    "runner.replay_1_nested": ["C09"], "runner.replay_2_root": ["C02", "C11", "C05"], "runner.replay_3_root": ["C12", "C09"], "runner.poll_reaction": ["C08", "C02"], "runner.real_callback": ["C04"], "runner.polls_after_run": ["C08", "C07", "C04"], "runner.self_despawn_root": ["C11"],
+    "runner.replay_1_nested": ["C09"], "runner.replay_2_root": ["C02", "C11", "C05"], "runner.replay_3_root": ["C09"], "runner.replay_order_three": ["C12"], "runner.poll_reaction": ["C08", "C02"], "runner.real_callback": ["C04"], "runner.polls_after_run": ["C08", "C07", "C04"], "runner.self_despawn_root": ["C11"],
     "runner.missing_root": ["C02", "C18"], "runner.entity_without_system": ["C11", "C05"],
     "runner.busy_nested": ["C02", "C09", "C12"], "runner.plain_run": ["C02", "C13", "C04", "C09"], "runner.witness": ["C02", "C09"],
     "cmd.apply_system_command": ["C02"], "cmd.apply_event_command": ["C05", "C12"], "cmd.apply_reaction_resource": ["C02"],
